@@ -5,6 +5,7 @@ import (
 	"go/constant"
 	"go/token"
 	"go/types"
+	"morlockverif/checker/internal/core"
 	"sort"
 	"strings"
 
@@ -200,7 +201,7 @@ func (d *driverModel) fieldAccesses() map[*ssa.Function]map[string]bool {
 				if res[fn] == nil {
 					res[fn] = map[string]bool{}
 				}
-				res[fn][st.Field(fa.Field).Name()] = true
+				res[fn][core.FieldName(st.Field(fa.Field))] = true
 			}
 		}
 	}
